@@ -132,7 +132,7 @@ def run_shard(spec):
         else:
             chars = [rnd.choice(pool) for _ in range(rnd.randrange(1, 12))]
             bad = chr(rnd.choice([0x20AC, rnd.randrange(0x100, 0x2000), rnd.randrange(0xA0, 0xC0), rnd.randrange(0x3000, 0xD000), 0x7F, 0x7F, 0xA0, 0xFF,
-                                  0xFEFF, 0xFEFF, 0x200B, 0xFFFE, 0x2060]))
+                                  0xFEFF, 0xFEFF, 0x200B, 0xFFFE, 0x2060, 0x2028, 0x2029, 0x2028]))
             while bad in ref_chars:
                 bad = chr(rnd.randrange(0x100, 0x2000))
             if rnd.random() < 0.3:
@@ -149,7 +149,8 @@ def run_shard(spec):
                 chars.append(rnd.choice(["\t", "\x0b", "\x0c", "\x1c", "\x1f", "\x85", " ", "я", "Z"]))
             elif rnd.random() < 0.6:
                 chars = [c for c in chars if c in ref_chars] + [rnd.choice(["\u2003", "\u3000", "\xa0", "\u2009", "\u205f"])]
-        case = {"kind": "asm", "mode": mode, "chars": "".join(chars), "included": rnd.random() < 0.3, "before": rnd.choice([None, None, "utf-8", "cp866", "koi8-r", "latin-1", "utf-16"])}
+        case = {"kind": "asm", "mode": mode, "chars": "".join(chars), "included": rnd.random() < 0.3, "before": rnd.choice([None, None, "utf-8", "cp866", "koi8-r", "latin-1", "utf-16"]),
+                "crlf": rnd.choice([None, None, "\r\n", "\r\n", " \r\n"])}
         vs = run_case(case, cnt)
         res["violations"].extend(vs)
         cnt["asm_programs"] += 1
@@ -273,6 +274,12 @@ def run_case(case, cnt=None):
                 chars = chars + "A"
             src = "".join(f'.word "{chars[i]}{chars[i + 1]}\n' for i in range(0, len(chars), 2))
             expect = bytes(ref_chars.get(c, 0) for c in chars)
+        if case.get("crlf") and not case.get("included"):
+            # the same text with CR LF (or a stray CR before the line end) as given by an API caller: the line ends are not part of
+            # any literal, every character inside the literals is still exactly itself
+            src = src.replace("\n", case["crlf"])
+            if cnt is not None:
+                cnt["asm_cr_line_ends"] = cnt.get("asm_cr_line_ends", 0) + 1
         files = [("/c14/main.mac", src)]
         tmpd = None
         if case.get("included"):
